@@ -98,6 +98,7 @@ def crafted():
     c.append(("unterminated-string", b'char *s = "abc'))
     c.append(("attr-eof", b"[[foo("))
     c.append(("dup-label", b"void f(void){a: a: ;}"))
+    c.append(("void-param", b"void f2(void b) { } struct S; void f3(struct S s) { }"))
     c.append(("div-zero", b"int x = 1/0; long y = (-9223372036854775807L-1)/-1; int z = 1%0;"))
     # every host-undefined constant division, one per unit and per folding context (a trap in one hides the others)
     for k, e in enumerate([b"1/0", b"1%0", b"(-9223372036854775807L-1)/-1", b"(-9223372036854775807L-1)%-1", b"(-9223372036854775807LL-1)%-1LL",
@@ -132,7 +133,10 @@ def gen_buffer_ops(rng, nseq, maxops):
                 n = rng.choice([1, 8, 24, 48, max(free - 1, 1), max(free, 1), free + 1, cap + 1, max(2 * cap - ln, 1),
                                 2 * cap - ln + 1, max(2 * cap - 1, 1), 2 * cap, rng.randrange(1, 3 * max(cap, 256)),
                                 rng.randrange(1, 64), 255, 256, 257])
-                n = max(n, 1)
+                n = max(min(n, 1 << 16), 1)      # thresholds of interest are relative to cap; keep the total allocatable
+                if cap > (1 << 22):
+                    ops.append("new")
+                    ln, cap = 0, 0
                 ops.append("add %d" % n)
                 if cap - ln < n:
                     while True:
